@@ -490,6 +490,33 @@ class Check:
                 self.cli_ok = False
                 self.build_failures.append(('typeshare CLI build from /repo', msg))
 
+    def fidelity(self, langs, n_ir=200, decisive=False):
+        """Byte-level tie of the back-end models to the real generators, re-checked on this run: every snapshot
+        input of /repo/core/data/tests through parse -> reconcile -> generate_types on both sides, plus n_ir seeded
+        IR item sets per language. A byte difference is counted as render_drift (evidence); when `decisive`
+        (text-level properties) it is a broken correspondence (violation without a failing input unless the
+        property's own judgement finds one)."""
+        import glob, back, irgen
+        files = sorted(glob.glob(str(REPO / 'core/data/tests/*/input.rs')))
+        CFG = {'kotlin': {'package': 'com.agilebits.onepassword'}, 'scala': {'package': 'com.agilebits.onepassword'}, 'go': {'package': 'proto'}}
+        drift = []
+        for lang in langs:
+            cfg = CFG.get(lang, {})
+            res = back.run_src([(lang, cfg, open(f).read(), []) for f in files])
+            g = irgen.Gen(random.Random(f'fidelity-{self.prop}-{self.seed}-{lang}'))
+            res += back.run_ir([(lang, cfg, g.items(), k % 2 == 0) for k in range(n_ir)])
+            for r in res:
+                self.count('fidelity_cases_' + lang)
+                if not back.same(r['impl'], r['model']):
+                    drift.append({'lang': lang, 'case': r['case'][2] if isinstance(r['case'][2], str) else r['case'][2], 'impl': r['impl'], 'model': r['model']})
+        self.count('render_drift', len(drift))
+        if drift and decisive:
+            self.violation('fidelity', {'correspondence': 'Model.Lang.*_generate vs the real generate_types, byte for byte', 'cases': drift[:3]},
+                           f'model and real generator differ in bytes on {len(drift)} snapshot / IR case(s)', no_input=True)
+        elif drift:
+            self.notes.append(f'render_drift: {len(drift)} byte-level differences between model and real generator (observations are what decides this property); first: {json.dumps(drift[0])[:600]}')
+        return drift
+
     def finish(self):
         wall = time.time() - self.t0
         au = self.audit or {'obligations': 1, 'discharged': 0, 'axioms': [], 'failures': ['not run'], 'theorems': []}
